@@ -6531,7 +6531,7 @@ func checkMidLineNotNotice(c *Ctx, p *core.Prog) {
 			ok := false
 			for _, f := range core.FactsAt(call.Block()) {
 				if cmp, isCmp := f.AsCmp(); isCmp {
-					if (core.Unspill(cmp.X) == ssa.Value(pos) || core.Unspill(cmp.Y) == ssa.Value(pos)) {
+					if core.Unspill(cmp.X) == ssa.Value(pos) || core.Unspill(cmp.Y) == ssa.Value(pos) {
 						ok = true
 					}
 				}
